@@ -204,6 +204,10 @@ impl Node {
     pub fn has_anchor(&self) -> bool {
         self.any(&|n| matches!(n, Node::Bol | Node::Eol))
     }
+    /// an alternation one of whose branches contains an anchor, somewhere after a repetition
+    pub fn has_anchor_in_alternative(&self) -> bool {
+        self.any(&|n| matches!(n, Node::Alt(v) if v.iter().any(|b| b.has_anchor())))
+    }
     pub fn has_dot(&self) -> bool {
         self.any(&|n| matches!(n, Node::Dot))
     }
@@ -281,6 +285,54 @@ impl Node {
     /// memoises its zero-iteration alternative per position (History)
     pub fn has_min0_variable_greedy_repeat(&self) -> bool {
         self.any(&|n| matches!(n, Node::Repeat { body, min: 0, greedy: true, max, .. } if *max != Some(0) && body.fixed_len().is_none()))
+    }
+    /// the capturing groups in the order of their opening parentheses
+    pub fn groups_in_order(&self) -> Vec<&Node> {
+        fn go<'a>(n: &'a Node, out: &mut Vec<&'a Node>) {
+            if matches!(n, Node::Group(_)) {
+                out.push(n);
+            }
+            for c in n.children() {
+                go(c, out);
+            }
+        }
+        let mut v = vec![];
+        go(self, &mut v);
+        v
+    }
+    /// can some match of this sub-pattern consume a character? (`root` resolves back-references:
+    /// a back-reference consumes iff its group can)
+    pub fn can_consume(&self, root: &Node) -> bool {
+        fn go(n: &Node, groups: &[&Node], depth: usize) -> bool {
+            match n {
+                Node::Char(_) | Node::Dot | Node::Esc(_) | Node::Prop(..) | Node::Class(_) => true,
+                Node::Backref(k) => depth < 8 && groups.get(*k - 1).map_or(false, |g| go(g, groups, depth + 1)),
+                Node::Repeat { max: Some(0), .. } => false,
+                other => other.children().iter().any(|c| go(c, groups, depth)),
+            }
+        }
+        go(self, &root.groups_in_order(), 0)
+    }
+    /// (mixed, pure): a quantifier allowing more than one iteration over a body that may match
+    /// without consuming; mixed = the body can also consume input, pure = it never can
+    pub fn zero_width_loops(&self) -> (bool, bool) {
+        fn go(n: &Node, root: &Node, acc: &mut (bool, bool)) {
+            if let Node::Repeat { body, max, .. } = n {
+                if max.map_or(true, |m| m > 1) && body.nullable() {
+                    if body.can_consume(root) {
+                        acc.0 = true;
+                    } else {
+                        acc.1 = true;
+                    }
+                }
+            }
+            for c in n.children() {
+                go(c, root, acc);
+            }
+        }
+        let mut acc = (false, false);
+        go(self, self, &mut acc);
+        acc
     }
     pub fn has_ncgroup(&self) -> bool {
         self.any(&|n| matches!(n, Node::NcGroup(_)))
